@@ -65,6 +65,7 @@ type Result struct {
 	Committed          int
 	Dropped            int
 	MaxInFlight        int
+	SpamRefused        int // records refused by the antispammer
 	Inversions         int // a later send returned before an earlier one
 	DropBehind         int // a drop happened while an earlier event of the same stream was unresolved
 	RetriesSeen        int
@@ -395,9 +396,7 @@ func (a *simAction) Do(e *pipeline.Event) pipeline.ActionResult {
 		a.ctl.Spawn(e, kids.AsArray())
 		return pipeline.ActionBreak
 	case "start":
-		if st.kid != nil {
-			return pipeline.ActionPass
-		}
+		// (a child of a split may be held as well: Spawn ends with a time-out event to every busy action)
 		a.flush()
 		a.held = e
 		s.mu.Lock()
@@ -406,7 +405,7 @@ func (a *simAction) Do(e *pipeline.Event) pipeline.ActionResult {
 		s.mu.Unlock()
 		return pipeline.ActionHold
 	case "cont":
-		if st.kid == nil && a.held != nil {
+		if a.held != nil {
 			s.drop(id, "collapse")
 			return pipeline.ActionCollapse
 		}
@@ -770,6 +769,9 @@ func Run(plan *Plan) *Result {
 	}
 	settings.MaintenanceInterval = time.Hour
 	settings.Antispam.MaintenanceInterval = time.Hour
+	if plan.AntispamThreshold > 0 {
+		settings.Antispam.Threshold = plan.AntispamThreshold
+	}
 	name := fdkit.UniqueName("sim")
 	p := fdkit.NewPipeline(name, settings)
 	s.p = p
@@ -933,6 +935,11 @@ func Run(plan *Plan) *Result {
 		feeders := int(feedersDone.Load())
 		s.failf("C04", "not-finalized", "pipeline made no progress for %v: %d of %d feeders finished, accepted events never finalized: %v (in use %d, waiters %d)", deadline, feeders, len(plan.Sources), pending, p.VerifPoolInUse(), p.VerifPoolWaiters())
 		s.failf("C02", "unaccounted-events", "accepted events neither committed nor dropped when the run ended: %v", pending)
+		if feeders == len(plan.Sources) && p.VerifPoolWaiters() == 0 {
+			// nothing is being read, nothing moved for the whole deadline (far above the event time-out and
+			// every flush interval): the pipeline is idle, yet events are still out of the pool
+			s.failf("C05", "events-in-use-when-idle", "all input is read, nothing moved for %v, but %d events are still in use (never finalized: %v)", deadline, p.VerifPoolInUse(), pending)
+		}
 	} else {
 		s.res.PoolInUseAtEnd = p.VerifPoolInUse()
 		// everything is accounted for; the in-use count must be back to zero (allow the
@@ -1133,7 +1140,18 @@ func (s *Sim) feedRecord(src *Source, ri int) {
 				s.failf("C20", "refusable-record-accepted", "record %d (%s) was accepted", r.ID, r.Refuse)
 			}
 		} else if r.Refuse == "" {
-			s.failf("C20", "valid-record-refused", "record %d is valid but Pipeline.In returned 0", r.ID)
+			// the antispammer counts every record of a source after the first one and bans the source at the threshold
+			counted := 0
+			for i := 1; i < len(src.Records); i++ {
+				if s.ev[src.Records[i].ID].offered {
+					counted++
+				}
+			}
+			if s.plan.AntispamThreshold > 0 && ri > 0 && counted >= s.plan.AntispamThreshold {
+				s.res.SpamRefused++
+			} else {
+				s.failf("C20", "valid-record-refused", "record %d is valid but Pipeline.In returned 0", r.ID)
+			}
 		}
 		s.mu.Unlock()
 	}
